@@ -20,6 +20,7 @@ const bomErrorMsg = "invalid BOM in the middle of the file"
 // scanProgram scans a program file and returns a lexer.
 func scanProgram(text []byte) *lexer {
 	tokens := make(chan token, 20)
+	tokens = simTokens(tokens)
 	lex := &lexer{
 		text:   text,
 		src:    text,
@@ -35,6 +36,7 @@ func scanProgram(text []byte) *lexer {
 // scanTemplate scans a template file and returns a lexer.
 func scanTemplate(text []byte, format ast.Format, noParseShow bool) *lexer {
 	tokens := make(chan token, 20)
+	tokens = simTokens(tokens)
 	lex := &lexer{
 		text:           text,
 		src:            text,
